@@ -326,8 +326,21 @@ def run_property(prop, tier, seed):
             if fnmatch.fnmatch(o.id, os.environ['PYVC_DUMP']):
                 print('=== DUMP', o.id, status(o)); print(o.smt2()[:6000])
     known_set = {id(o) for o, _ in known}
-    n = len([o for o in obls if id(o) not in known_set])   # obligations under a recorded open finding are reported separately
-    disch = sum(1 for o in obls if status(o) == 'discharged')
+    # roots verified only up to a stated bound (e.g. a loop unrolled over short concrete lists) are reported separately:
+    # labelled bounded, never counted among the proved obligations
+    bounded_roots = {}
+    for t in roots:
+        c = R.contracts.get(t)
+        b = getattr(c, 'bounded', None) if c is not None else None
+        if b:
+            key = t.replace('s3transfer.', '').replace(':', '.')
+            mine = [o for o in obls if o.function.startswith(key)]
+            bounded_roots[t] = {'bound': b, 'label': 'bounded', 'obligations': len(mine),
+                                'discharged': sum(1 for o in mine if status(o) == 'discharged')}
+            for o in mine:
+                o.is_bounded = True
+    n = len([o for o in obls if id(o) not in known_set and not getattr(o, 'is_bounded', False)])   # (open findings reported separately)
+    disch = sum(1 for o in obls if status(o) == 'discharged' and not getattr(o, 'is_bounded', False))
     by_backend = {}
     for o in obls:
         by_backend[o.backend or 'none'] = by_backend.get(o.backend or 'none', 0) + 1
@@ -372,6 +385,7 @@ def run_property(prop, tier, seed):
             'failed': [o.id for o, _ in failed], 'undecided': [o.id for o in undecided],
             'known_findings_hit': sorted(seen_kf), 'obligations_failing_under_known_findings': len(known),
             'bounded_standins': bounded.get('report', {}),
+            'bounded_roots_not_counted_as_proved': bounded_roots,
             'samples': samples,
             'repo_sha256': repo.shas(),
         },
